@@ -29,7 +29,8 @@ Definition all_tnames : list tname :=
    TMapping; TMutableMapping; TMappingView; TKeysView; TValuesView; TItemsView; TByteString; TAsyncIterable;
    TGenerator; TIterator; TAwaitable; TCoroutine; TCallable; TUnion; TOptional; TLiteral; TAny].
 
-Inductive spell := SpTyping | SpBuiltin.     (* typing.List[int]  |  list[int] *)
+Inductive spell := SpTyping | SpBuiltin | SpAbc.     (* typing.List[int]  |  list[int]  |  collections.abc.Sequence[int], collections.deque[int] *)
+Definition is_abc (sp : spell) : bool := match sp with SpAbc => true | _ => false end.
 Inductive uspell := UTyping | UPipe.         (* typing.Union / Optional  |  X | Y *)
 
 (* TypeVar objects: identity + declared constraints / bound / variance *)
